@@ -3,7 +3,8 @@ import dataclasses
 from obligations import C08 as _c08
 from obligations.C08 import LFHT_TRUSTED
 
-SEL = ('C06.O1.add_unique', 'C06.O1.add_unique_small', 'C06.O2.replace', 'C06.O2.replace_removed', 'C06.O2.replace_api', 'C08.O4.next_duplicate', 'C07.O1.del', 'C07.O1.del_twice')
+SEL = ('C06.O1.add_unique', 'C06.O1.add_unique_small', 'C06.O2.replace', 'C06.O2.replace_removed', 'C06.O2.replace_api', 'C08.O4.next_duplicate', 'C07.O1.del', 'C07.O1.del_twice',
+       'C06.O3.cds_lfht_add', 'C06.O3.cds_lfht_add_unique', 'C06.O3.cds_lfht_add_replace', 'C06.O3.cds_lfht_del')
 OBLIGATIONS = [o for o in _c08.OBLIGATIONS if o.name in SEL]
 META = {
     'level': 'proof', 'bounded_apart': True,
